@@ -323,7 +323,7 @@ def thresholds(tier):
   n = len(configs(tier))
   t = {"configs_explored": n, "exhaustive_sets_complete": n - 5, "cycles_judged": 30000, "messages_delivered": 8000,
        "count_checks": 10000, "resets_midrun": 50, "pipe_enq_when_full": 200, "bypass_deq_when_empty": 200,
-       "mixed_system_runs": 100, "mixed_messages_delivered": 1000, "peek_checks": 1000, "adapter_runs": 100, "adapter_zero_messages_accepted": 500}
+       "mixed_system_runs": 100, "mixed_messages_delivered": 1000, "peek_checks": 1000, "adapter_runs": 100, "adapter_zero_messages_accepted": 500, "split_system_runs": 100}
   if tier == "thorough":
     t.update({"cycles_judged": 800000, "messages_delivered": 200000})
   return t
@@ -524,6 +524,79 @@ def run_mixed(sh, case):
     G.unload(mod)
 
 
+SPLIT_SRC = """
+from pymtl3 import *
+from pymtl3.stdlib.queues import NormalQueueCL, PipeQueueCL, BypassQueueCL
+class TopSplitCL(Component):
+  # cycle-level producer -> CL queue -> a consumer that SAMPLES deq.rdy() in one block and dequeues in another one (the shape of the
+  # library's CL/RTL adapters); the producer likewise samples enq.rdy() in a block of its own.  One payload object is reused.
+  def construct(s, Q, n, offer, stall):
+    s.q = Q(num_entries=n)
+    s.t = 0; s.idx = 0; s.acc = []; s.dlv = []; s.enq_ok = False; s.deq_ok = False; s.rdy_log = []
+    s.payload = Bits16(0)
+    @update_once
+    def up_enq_rdy():
+      s.enq_ok = bool(s.q.enq.rdy())
+    @update_once
+    def up_enq():
+      if s.enq_ok and offer[s.t % len(offer)]:
+        s.payload @= 0x100 + s.idx
+        s.q.enq(s.payload); s.acc.append((s.t, 0x100 + s.idx)); s.idx += 1
+    @update_once
+    def up_deq_rdy():
+      s.deq_ok = bool(s.q.deq.rdy())
+    @update_once
+    def up_deq():
+      s.rdy_log.append((s.t, s.enq_ok, s.deq_ok))
+      if s.deq_ok and not stall[s.t % len(stall)]:
+        s.dlv.append((s.t, int(s.q.deq())))
+    s.add_constraints( U(up_enq_rdy) < U(up_enq), U(up_deq_rdy) < U(up_deq) )      # each side samples before it calls; nothing else
+"""
+
+
+def run_split(sh, case):
+  """cycle-level queues used the way the library's adapters use them: rdy sampled in one block, the method called in another.
+  Per cycle the observed ready flags and transfers equal the FIFO reference of the queue's kind (same-cycle pipe / bypass
+  behaviour included), and what is delivered is what was accepted although the producer reuses its payload object."""
+  from pymtl3 import DefaultPassGroup
+  from vlib import specgen as G
+  rng = sh.rng("split", case)
+  mod = G.load_source(SPLIT_SRC, "c17split")
+  try:
+    kind = rng.choice(["Normal", "Pipe", "Bypass"]); n = rng.randrange(1, 4)
+    offer = [rng.random() < rng.choice([0.5, 0.9, 1.0]) for _ in range(rng.randrange(3, 9))]
+    if not any(offer): offer[0] = True
+    stall = [rng.random() < rng.choice([0.0, 0.0, 0.3, 0.7]) for _ in range(rng.randrange(3, 9))]
+    if all(stall): stall[0] = False
+    top = mod.TopSplitCL(getattr(mod, kind + "QueueCL"), n, offer, stall)
+    top.elaborate(); top.apply(DefaultPassGroup())
+    ref = FifoRef(kind.lower(), n)
+    ncyc = rng.randrange(30, 90)
+    ctx = {"queue": kind + "QueueCL", "entries": n, "offer_pattern": offer, "stall_pattern": stall}
+    for t_ in range(ncyc):
+      top.t = t_
+      na, nd = len(top.acc), len(top.dlv)
+      top.sim_tick()
+      enq_fire = len(top.acc) > na; deq_fire = len(top.dlv) > nd
+      msg = top.acc[-1][1] if enq_fire else None
+      exp = ref.expect(offer[t_ % len(offer)], msg if msg is not None else 0x100 + top.idx, not stall[t_ % len(stall)])
+      sh.count("split_cycles_judged"); sh.count("cycles_judged")
+      if (enq_fire, deq_fire) != (exp["enq_fire"], exp["deq_fire"]):
+        sh.violation("transfer-differs-from-fifo-reference-with-rdy-sampled-in-a-separate-block", dict(ctx, cycle=t_, occupancy=exp["count"],
+                     enq_offer=offer[t_ % len(offer)], deq_offer=not stall[t_ % len(stall)], observed={"enq": enq_fire, "deq": deq_fire},
+                     expected={"enq": exp["enq_fire"], "deq": exp["deq_fire"]}, rdy_flags_seen=top.rdy_log[-1][1:]), case=("split", case)); return
+      got = ref.apply(enq_fire, msg, deq_fire)
+      if deq_fire and top.dlv[-1][1] != got:
+        sh.violation("system-delivers-other-messages-than-were-accepted", dict(ctx, cycle=t_, delivered=hex(top.dlv[-1][1]), expected=hex(got) if isinstance(got, int) else got,
+                     note="the producer reuses one payload object"), case=("split", case)); return
+    sh.count("split_system_runs"); sh.count("evaluations"); sh.fp("split", kind, n, tuple(offer), tuple(stall))
+    if len(top.acc) < 3: sh.inconclusive("split-system-made-no-progress")
+  except Exception:
+    sh.violation("mixed-system-raised", {"shape": "split", "error": traceback.format_exc()[-600:]}, case=("split", case))
+  finally:
+    G.unload(mod)
+
+
 ADAPT_SRC = """
 from pymtl3 import *
 from pymtl3.stdlib.stream import SendQueueAdapter, RecvQueueAdapter
@@ -628,6 +701,7 @@ def run_shard(sh):
   cfg = sh.params
   for case in range(3 if sh.tier == "quick" else 30):
     run_adapters(sh, cfg["cfg_idx"] * 100 + case)
+    run_split(sh, cfg["cfg_idx"] * 100 + case)
   for case in range(3 if sh.tier == "quick" else 30):
     run_mixed(sh, cfg["cfg_idx"] * 100 + case)
   rng = sh.rng("cfg", cfg["cfg_idx"])
